@@ -3,6 +3,7 @@ package checks
 import (
 	"flag"
 	"fmt"
+	"net"
 	"os"
 	"os/exec"
 	"strings"
@@ -45,11 +46,23 @@ func sh(args ...string) error {
 func setupNS() (int, error) {
 	pid := os.Getpid()
 	mainNS, peerNS := fmt.Sprintf("vfm%d", pid), fmt.Sprintf("vfp%d", pid)
+	etcDir := "/etc/netns/" + mainNS
 	cleanup := func() {
 		exec.Command("ip", "netns", "del", mainNS).Run()
 		exec.Command("ip", "netns", "del", peerNS).Run()
+		os.RemoveAll(etcDir)
 	}
 	cleanup()
+	// `ip netns exec` bind-mounts /etc/netns/<name>/* over /etc/*: a private hosts file gives the checks host NAMES
+	// (answered from the hosts file, like localhost or container aliases) for their simulated targets
+	if err := os.MkdirAll(etcDir, 0o755); err == nil {
+		var sb strings.Builder
+		sb.WriteString("127.0.0.1 localhost\n::1 localhost ip6-localhost\n")
+		for k := 0; k < 256; k++ {
+			fmt.Fprintf(&sb, "10.204.%d.9 verif-w%d-v4 verif-w%d\nfd00:204:%x::9 verif-w%d-v6 verif-w%d\n", k, k, k, k, k, k)
+		}
+		os.WriteFile(etcDir+"/hosts", []byte(sb.String()), 0o644)
+	}
 	cmds := [][]string{
 		{"ip", "netns", "add", mainNS},
 		{"ip", "netns", "add", peerNS},
@@ -106,6 +119,12 @@ func TestMain(m *testing.M) {
 		}
 		os.Exit(code)
 	}
+	// the net package creates some process-wide channels lazily (resolv.conf reload semaphore, cgo thread limiter); the
+	// first use must happen outside any synctest bubble or a later bubble dies with "send on synctest channel from
+	// outside bubble"
+	net.LookupIP("localhost")
+	net.LookupIP("verif-w0-v4")
+	net.LookupIP("verif-w0-v6")
 	code := m.Run()
 	if exitCode != 0 {
 		code = exitCode
